@@ -63,7 +63,10 @@ func (g *G) Sep() string {
 	return first + g.Trivia(false, 2)
 }
 
-var words = []string{"+5", "+", "a+b", "a", "abc", "x1", "foo-bar", "é", "日本", "a.b", "urn:x", "10", "-1", "k=v", "p:q", "*", "a/b", "[1]", "(x)", "$", "~"}
+var words = []string{"+5", "+", "a+b", "a", "abc", "x1", "foo-bar", "é", "日本", "a.b", "urn:x", "10", "-1", "k=v", "p:q", "*", "a/b", "[1]", "(x)", "$", "~",
+	// RFC 6020 6.1.3 lets an unquoted string hold an apostrophe (only blanks, ";", "{", "}" and comment openers force
+	// quoting); it must not come first, where it would open a single-quoted string
+	"o'clock", "x'", "a''b", "k='v'"}
 
 // UnquotedArg: no blanks, no ; { } quotes, does not start with '+' or a comment opener.
 func (g *G) UnquotedArg() string {
@@ -73,7 +76,7 @@ func (g *G) UnquotedArg() string {
 		b.WriteString(words[g.Pick(len(words), "uword")])
 	}
 	s := b.String()
-	if strings.Contains(s, "//") || strings.Contains(s, "/*") || s == "+" {
+	if strings.Contains(s, "//") || strings.Contains(s, "/*") || s == "+" || strings.HasPrefix(s, "'") {
 		return "w"
 	}
 	return s
